@@ -122,8 +122,17 @@ func memfdCase(c map[string]any, env container.Environment) map[string]any {
 		b, _ := os.ReadFile(filepath.Join(hx.BinDir(), "probe_target"))
 		data = append(b, data...)
 	}
+	if c["prog"] == "exeaway" {
+		b, _ := os.ReadFile(filepath.Join(hx.BinDir(), "probe_exeaway"))
+		data = append(b, data...)
+	}
 	var rd io.Reader
 	var cleanup func()
+	// supplier's side of a reader that is a descriptor of an in-memory file: the descriptor handed to the copier, the
+	// supplier's own (read-write) descriptor of the same file, the file's total length
+	var srcReader, srcMaster *os.File
+	var srcTotal int64
+	srcNote := map[string]any{}
 	switch c["reader"] {
 	case "bytes":
 		rd = bytes.NewReader(data)
@@ -171,6 +180,51 @@ func memfdCase(c map[string]any, env container.Environment) map[string]any {
 		r, w, _ := os.Pipe()
 		go func() { w.Write(data); w.Close() }()
 		rd, cleanup = r, func() { r.Close() }
+	case "memfd":
+		// the supplied bytes live in an in-memory file of the supplier (a cache entry), in whatever seal state the supplier
+		// chose, handed over as its own descriptor, a duplicate or a re-opened one, at its start or behind a consumed header
+		flags := unix.MFD_CLOEXEC | unix.MFD_ALLOW_SEALING
+		if c["src_nosealing"] == true {
+			flags = unix.MFD_CLOEXEC
+		}
+		mfd, err := unix.MemfdCreate("supplier-cache", flags)
+		if err != nil {
+			return map[string]any{"harness_err": "memfd_create: " + err.Error()}
+		}
+		master := os.NewFile(uintptr(mfd), "supplier-cache")
+		hdr := make([]byte, int(hx.Int(c["src_off"])))
+		master.Write(hdr)
+		master.Write(data)
+		if want := int(hx.Int(c["src_seals"])); want != 0 {
+			if _, e := unix.FcntlInt(master.Fd(), unix.F_ADD_SEALS, want); e != nil {
+				srcNote["src_seal_err"] = e.Error()
+			}
+		}
+		got, _ := unix.FcntlInt(master.Fd(), unix.F_GET_SEALS, 0)
+		srcNote["src_seals_before"] = got
+		h := master
+		switch c["src_handle"] {
+		case "dup":
+			d, e := unix.FcntlInt(master.Fd(), unix.F_DUPFD_CLOEXEC, 0)
+			if e != nil {
+				return map[string]any{"harness_err": "dup: " + e.Error()}
+			}
+			h = os.NewFile(uintptr(d), "supplier-cache")
+		case "reopen_ro":
+			g, e := os.Open(fmt.Sprintf("/proc/self/fd/%d", master.Fd()))
+			if e != nil {
+				return map[string]any{"harness_err": "reopen: " + e.Error()}
+			}
+			h = g
+		}
+		h.Seek(int64(len(hdr)), io.SeekStart)
+		srcReader, srcMaster, srcTotal = h, master, int64(len(hdr)+len(data))
+		rd, cleanup = h, func() {
+			if h != master {
+				h.Close()
+			}
+			master.Close()
+		}
 	case "scripted":
 		s := &scripted{data: append([]byte{}, data...), final: io.EOF}
 		for _, x := range c["chunks"].([]any) {
@@ -185,6 +239,9 @@ func memfdCase(c map[string]any, env container.Environment) map[string]any {
 		defer cleanup()
 	}
 	o := map[string]any{"want": sum(data), "want_len": len(data)}
+	for k, v := range srcNote {
+		o[k] = v
+	}
 	f, err := memfd.DupToMemfd("verif", rd)
 	if err != nil {
 		o["err"] = err.Error()
@@ -204,6 +261,27 @@ func memfdCase(c map[string]any, env container.Environment) map[string]any {
 	}
 	observe("")
 	flen := o["len"].(int64)
+	if srcReader != nil {
+		// the supplier goes on using its reader (rewinds it, reads it again to the end): the sealed file stays at its start
+		moved := []int64{}
+		for _, to := range []int64{srcTotal, srcTotal / 2, 1, 0} {
+			if to > srcTotal {
+				continue
+			}
+			srcReader.Seek(to, io.SeekStart)
+			if pos, _ := f.Seek(0, io.SeekCurrent); pos != 0 {
+				moved = append(moved, pos)
+			}
+		}
+		o["pos_after_supplier_seeks"] = moved
+		f.Seek(0, io.SeekStart)
+	}
+	if c["prog"] == "exeaway" && env != nil {
+		// the program attacks its executable while it runs from it and after it has exec'ed another binary, keeping descriptors
+		st, ex, out, e := run(env, []string{"/vb/probe_exeaway", "run", "/vb/probe_exeaway"}, f.Fd())
+		o["away_status"], o["away_exit"], o["away_out"], o["away_err"] = st, ex, out, e
+		observe("away_")
+	}
 	// attempts by a holder of the descriptor
 	att := []string{}
 	if _, e := f.WriteAt([]byte("X"), 0); e == nil {
@@ -244,15 +322,48 @@ func memfdCase(c map[string]any, env container.Environment) map[string]any {
 		o["run_status"], o["run_exit"], o["run_out"], o["run_err"] = st, ex, out, e
 	}
 	observe("after_")
+	if srcMaster != nil {
+		// the supplier goes on using its own file as far as the seals IT chose allow: whatever it does there, the sealed
+		// executable keeps its bytes
+		done := []string{}
+		if _, e := srcMaster.WriteAt([]byte("Y"), 0); e == nil {
+			done = append(done, "pwrite")
+		}
+		if _, e := srcMaster.WriteAt([]byte("Y"), srcTotal); e == nil {
+			done = append(done, "append")
+		}
+		if e := srcMaster.Truncate(srcTotal + 4096); e == nil {
+			done = append(done, "grow")
+		}
+		if e := srcMaster.Truncate(0); e == nil {
+			done = append(done, "truncate0")
+		}
+		o["supplier_did"] = done
+		observe("src_")
+	}
 	return o
 }
 
 func main() {
 	hx.Init()
 	scratch := os.Getenv("VERIF_SCRATCH")
-	var shared container.Environment
+	var shared, sharedProc container.Environment
 	hx.Cases(func(c map[string]any) map[string]any {
 		if c["mode"] == "memfd" {
+			if c["prog"] != nil {
+				// these programs work through /proc/self/exe and /proc/self/fd: a container with /proc (as runprog-style configurations have)
+				if sharedProc == nil {
+					var err error
+					if sharedProc, err = hx.NewEnvWith(scratch, nil, func(b *container.Builder) { b.Mounts = hx.Mounts().WithProc().Mounts }); err != nil {
+						return map[string]any{"harness_err": err.Error()}
+					}
+				}
+				var o map[string]any
+				if !hx.Guard(60*time.Second, func() { o = memfdCase(c, sharedProc) }) {
+					return map[string]any{"hang": true}
+				}
+				return o
+			}
 			if c["elf"] == true && shared == nil {
 				var err error
 				if shared, err = hx.NewEnv(scratch, nil); err != nil {
@@ -349,5 +460,8 @@ func main() {
 	})
 	if shared != nil {
 		shared.Destroy()
+	}
+	if sharedProc != nil {
+		sharedProc.Destroy()
 	}
 }
